@@ -152,11 +152,11 @@ func (w *world) tickAction(ai int, a Action, st *streamModel) *pbt.Violation {
 	// let the counters come to rest (per-subscriber writer goroutines may still be flushing)
 	pre := make([]counters, len(w.streams))
 	stable := false
-	for i := 0; i < 400 && !stable; i++ {
+	for i := 0; i < 150 && !stable; i++ {
 		for j, x := range w.streams {
 			pre[j] = w.counters(x)
 		}
-		time.Sleep(500 * time.Microsecond)
+		time.Sleep(2 * time.Millisecond)
 		stable = true
 		for j, x := range w.streams {
 			if !sameCounters(pre[j], w.counters(x)) {
@@ -188,8 +188,13 @@ func (w *world) tickAction(ai int, a Action, st *streamModel) *pbt.Violation {
 // the stat API still lists the session).
 func (l *liveness) verdict(pre, post uint64, postListed, stable bool) (judge, dispose bool) {
 	certain := stable && (!postListed || post == pre)
-	judge = l.swept && !l.uncertain && certain
-	dispose = judge && pre == l.value
+	if !l.swept {
+		// lal looks at this session for the first time: nothing to compare with, it stays whatever the counter says
+		judge, dispose = true, false
+	} else {
+		judge = !l.uncertain && certain
+		dispose = judge && pre == l.value
+	}
 	l.swept, l.value, l.uncertain = true, pre, !certain
 	return
 }
@@ -215,7 +220,7 @@ func (w *world) judgeSweep(ai int, a Action, st *streamModel, pre, post counters
 		case judge:
 			pbt.Count("sweep:active-subscriber:"+sb.kind, 1)
 			if sb.k.conn().PeerGone() {
-				return pbt.V("sweep/active-session-disposed", "%s: subscriber %s (%s) of %s was disconnected by the liveness sweep although it was written %d bytes since the previous sweep", w.who(ai, a), sb.id, sb.kind, st.name, pv-sb.live.value)
+				return pbt.V("sweep/active-session-disposed", "%s: subscriber %s (%s) of %s was disconnected by the liveness sweep although it had been written to since the previous sweep (or met its first sweep); counter %d", w.who(ai, a), sb.id, sb.kind, st.name, pv)
 			}
 		default:
 			pbt.Count("sweep:no-verdict", 1)
@@ -280,7 +285,7 @@ func (w *world) judgeSweep(ai int, a Action, st *streamModel, pre, post counters
 	case judge:
 		pbt.Count("sweep:active-input:"+in.kind, 1)
 		if in.kind != "pull" && gonef() {
-			return pbt.V("sweep/active-session-disposed", "%s: the accepted %s input %s of %s was disconnected by the liveness sweep although %d bytes were read from it since the previous sweep", w.who(ai, a), in.kind, in.id, st.name, pv-in.live.value)
+			return pbt.V("sweep/active-session-disposed", "%s: the accepted %s input %s of %s was disconnected by the liveness sweep although it had been read from since the previous sweep (or met its first sweep); counter %d", w.who(ai, a), in.kind, in.id, st.name, pv)
 		}
 	default:
 		pbt.Count("sweep:no-verdict", 1)
